@@ -58,32 +58,33 @@ func (o *Obj) Bump(d int) int {
 }
 
 type Env struct {
-	I, J int
-	I8   int8
-	I16  int16
-	I32  int32
-	I64  int64
-	U    uint
-	U8   uint8
-	U16  uint16
-	U32  uint32
-	U64  uint64
-	F32  float32
-	F, G float64
-	B, C bool
-	S, T string
-	Xs   []int
-	Ys   []int
-	Fs   []float64
-	Ss   []string
-	Anys []interface{}
-	Any  interface{}
-	M    map[string]int
-	MA   map[string]interface{}
-	O    Obj
-	P    *Obj
-	Os   []Obj
-	Ps   []*Obj
+	I, J, K int
+	I8      int8
+	I16     int16
+	I32     int32
+	I64     int64
+	U       uint
+	U8      uint8
+	U16     uint16
+	U32     uint32
+	U64     uint64
+	F32     float32
+	F, G    float64
+	B, C    bool
+	S, T    string
+	Xs      []int
+	Ys      []int
+	Big     []int
+	Fs      []float64
+	Ss      []string
+	Anys    []interface{}
+	Any     interface{}
+	M       map[string]int
+	MA      map[string]interface{}
+	O       Obj
+	P       *Obj
+	Os      []Obj
+	Ps      []*Obj
 
 	Id    func(int) int
 	Neg   func(int) int
@@ -98,6 +99,10 @@ type Env struct {
 	NilFn func(int) int
 	I8Id  func(int8) int8
 	Var   func(...interface{}) interface{}
+	Pair  func(interface{}, interface{}) interface{}
+	AddF  func(float64, float64) float64
+	Tup   func(...interface{}) interface{}
+	VarI  func(...interface{}) interface{}
 
 	lg *Log
 }
@@ -137,6 +142,12 @@ func NewEnv(lg *Log) *Env {
 	e.NilFn = nil
 	e.I8Id = func(x int8) int8 { lg.add("I8Id", x); return x }
 	e.Var = func(xs ...interface{}) interface{} { lg.add("Var", xs...); return len(xs) }
+	e.AddF = func(a, b float64) float64 { lg.add("AddF", a, b); return a + b }
+	e.Pair = func(a, b interface{}) interface{} { lg.add("Pair", a, b); return []interface{}{a, b} }
+	// Tup returns its variadic slice itself (a callee may retain its arguments)
+	e.Tup = func(xs ...interface{}) interface{} { lg.add("Tup", xs...); return xs }
+	// VarI depends on the environment value it is a member of (a per-request closure)
+	e.VarI = func(xs ...interface{}) interface{} { lg.add("VarI", xs...); return e.I + len(xs) }
 	return e
 }
 
@@ -206,6 +217,15 @@ func (e *Env) AsMap() map[string]interface{} {
 		m[rt.Field(i).Name] = rv.Field(i).Interface()
 	}
 	m["Twice"] = e.Twice
+	return m
+}
+
+// AsAltMap: another environment type with the same member names in which the
+// function named Add takes float64 parameters (C17: an operator mapping is
+// resolved against the environment being compiled).
+func (e *Env) AsAltMap() map[string]interface{} {
+	m := e.AsMap()
+	m["Add"] = e.AddF
 	return m
 }
 
